@@ -61,6 +61,13 @@ func (m *markerFile) set(slot int, space string, idx int64, desc string) {
 	b[0] = 1
 }
 
+// clear empties a slot: its worker has finished, the case it ran last cannot be what kills the process.
+func (m *markerFile) clear(slot int) {
+	if m != nil && slot < maxSlots {
+		m.mem[slot*slotSize] = 0
+	}
+}
+
 type mark struct {
 	Space string
 	Idx   int64
